@@ -56,3 +56,27 @@ pub fn set_counting(on: bool) {
 pub fn live() -> (isize, isize) {
     (LIVE_BYTES.load(Relaxed), LIVE_BLOCKS.load(Relaxed))
 }
+
+/// Live bytes/blocks at a quiescent point. A worker thread that has handed
+/// over its result (scope/join returned) may still own its std thread handle
+/// and thread-locals for a moment; on a 1-CPU affinity mask that moment lasts
+/// until the measuring thread gives up the CPU. Sleep in short steps until
+/// the counters have been stable for a few reads (at most ~60 ms).
+pub fn live_settled() -> (isize, isize) {
+    let mut last = live();
+    let mut stable = 0;
+    for _ in 0..200 {
+        std::thread::sleep(std::time::Duration::from_micros(300));
+        let now = live();
+        if now == last {
+            stable += 1;
+            if stable >= 4 {
+                break;
+            }
+        } else {
+            stable = 0;
+            last = now;
+        }
+    }
+    last
+}
